@@ -431,9 +431,120 @@ func run(r *h.Run, sc scenario) {
 	_ = ref.Kind
 }
 
+// backpressured: an online observer's window (1) and queue (1) are full when the
+// victim dies. The will is a message like any other for an online subscriber:
+// the broker holds it until there is room; once the observer acknowledges, it
+// receives the will exactly once.
+func backpressured(r *h.Run, idx int) {
+	if r.TooMany() {
+		return
+	}
+	wq := packet.QOS(1 + idx%2)
+	retain := idx%4 >= 2
+	persistent := idx%3 == 0
+	label := fmt.Sprintf("back-pressured observer #%d (will qos=%d retain=%t, observer clean=%t)", idx, wq, retain, !persistent)
+	r.Journal("C12 %s", label)
+	b := bh.NewBroker()
+	b.Mon.Inner.SessionQueueSize = 1
+	b.Mon.Inner.ClientInflightMessages = 1
+	defer b.Shutdown()
+	fail := func(key, msg string) {
+		r.Violation("backpressure/"+key, label+": "+msg, map[string]interface{}{"detail": msg, "event_log_tail": b.Log.Dump(150)})
+	}
+	obs, _, oca, err := b.Connect("observer", bh.ConnectOpts{ID: "c12-bp-obs", Clean: !persistent}, nil)
+	if err != nil || oca == nil {
+		r.Inconclusive(label + ": observer could not connect")
+		return
+	}
+	_ = obs.Send(&packet.Subscribe{ID: 1, Subscriptions: []packet.Subscription{{Topic: "will/bp", QOS: 1}, {Topic: "obs/x", QOS: 1}}})
+	if _, err := bh.AwaitAck(obs, packet.SUBACK, 1); err != nil {
+		r.Inconclusive(label + ": observer SUBACK")
+		return
+	}
+	helper, _, hca, err := b.Connect("helper", bh.ConnectOpts{ID: "c12-bp-helper", Clean: true, AutoAck: true}, nil)
+	if err != nil || hca == nil {
+		r.Inconclusive(label + ": helper could not connect")
+		return
+	}
+	for i := 1; i <= 2; i++ {
+		_ = helper.Send(&packet.Publish{ID: packet.ID(i), Message: packet.Message{Topic: "obs/x", QOS: 1, Payload: []byte(fmt.Sprintf("fill-%d", i))}})
+		if _, err := bh.AwaitAck(helper, packet.PUBACK, packet.ID(i)); err != nil {
+			r.Inconclusive(label + ": helper PUBACK")
+			return
+		}
+	}
+	// the observer holds fill-1 unacknowledged (window full), fill-2 waits in its queue (queue full)
+	first, err := obs.WaitFor(bh.Watchdog, func(g packet.Generic) bool { _, ok := g.(*packet.Publish); return ok })
+	if err != nil {
+		r.Inconclusive(label + ": observer did not get the first message")
+		return
+	}
+	willPayload := fmt.Sprintf("will-bp-%d", idx)
+	v, _, vca, err := b.Connect("victim", bh.ConnectOpts{ID: "c12-bp-victim", Clean: true, Will: &packet.Message{Topic: "will/bp", Payload: []byte(willPayload), QOS: wq, Retain: retain}}, nil)
+	if err != nil || vca == nil {
+		r.Inconclusive(label + ": victim could not connect")
+		return
+	}
+	v.Close()
+	time.Sleep(3 * time.Millisecond) // shaping: let the will reach the full queue
+	// now the observer acknowledges everything it gets until the will arrives
+	_ = obs.Send(&packet.Puback{ID: first.(*packet.Publish).ID})
+	wills := 0
+	for wills == 0 {
+		g, err := obs.Next(bh.Watchdog)
+		if err != nil {
+			break
+		}
+		if pp, ok := g.(*packet.Publish); ok {
+			if pp.Message.Topic == "will/bp" {
+				wills++
+				if string(pp.Message.Payload) != willPayload || pp.Message.QOS != 1 || pp.Message.Retain {
+					fail("will-altered", "the will arrived as "+ref.Canon(pp))
+				}
+			}
+			if pp.Message.QOS == 1 {
+				_ = obs.Send(&packet.Puback{ID: pp.ID})
+			}
+		}
+	}
+	if wills == 0 {
+		fail("will-lost-under-backpressure", "the observer's window and queue were full when the victim died; after it acknowledged everything it never received the will")
+		return
+	}
+	if !b.WaitClosed("victim", bh.Watchdog) {
+		fail("victim-not-closed", "the victim's client never closed")
+		return
+	}
+	// nothing more: a second copy would follow promptly behind a ping
+	if bh.Ping(obs) == nil {
+		n := 0
+		for _, g := range obs.All() {
+			if pp, ok := g.(*packet.Publish); ok && pp.Message.Topic == "will/bp" && !pp.Dup {
+				n++
+			}
+		}
+		if n != 1 {
+			fail("will-count", fmt.Sprintf("the observer received the will %d times", n))
+		}
+	}
+	if ci := b.ClientOf("victim"); ci != nil {
+		n := 0
+		for _, m := range b.Mon.Snapshot(ci).Publishes {
+			if m.Topic == "will/bp" {
+				n++
+			}
+		}
+		if n != 1 {
+			fail("will-publish-count", fmt.Sprintf("Backend.Publish was called %d times with the will", n))
+		}
+	}
+	r.Eval()
+	r.NonTrivial(label)
+}
+
 func TestCheck(t *testing.T) {
 	r := h.New("C12", "fault_enumeration")
-	r.Rule("termination cause {DISCONNECT, peer EOF, corrupt frame, second CONNECT, CONNACK/SUBACK/PINGRESP from the client, oversized packet, keep-alive expiry, takeover by the same id (clean/unclean), MemoryBackend.Close, token-timeout kill, Backend.Publish/Subscribe failing, rejected authentication, failing Setup, CONNACK send failing before/after} x protocol state {idle, inbound QoS 1 done, inbound QoS 2 open, outbound delivery unacknowledged, blocked on a publish token} x will QoS 0-2 x retain; oracle: number of Backend.Publish calls with the will's content on behalf of the victim after its Closed() fired = 1 iff Setup succeeded and the broker did not log a received DISCONNECT, content unchanged; online, offline-persistent and late (retained) observers consistent with it. Non-trivial = (cause,state) pairs in which the client had been accepted; distinct by scenario")
+	r.Rule("termination cause {DISCONNECT, peer EOF, corrupt frame, second CONNECT, CONNACK/SUBACK/PINGRESP from the client, oversized packet, keep-alive expiry, takeover by the same id (clean/unclean), MemoryBackend.Close, token-timeout kill, Backend.Publish/Subscribe failing, rejected authentication, failing Setup, CONNACK send failing before/after} x protocol state {idle, inbound QoS 1 done, inbound QoS 2 open, outbound delivery unacknowledged, blocked on a publish token} x will QoS 0-2 x retain; oracle: number of Backend.Publish calls with the will's content on behalf of the victim after its Closed() fired = 1 iff Setup succeeded and the broker did not log a received DISCONNECT, content unchanged; online, offline-persistent and late (retained) observers consistent with it. Back-pressure part: an online observer with window 1 and queue 1, both full, when a victim with a QoS 1/2 will loses its connection: after the observer acknowledges it must get the will exactly once. Non-trivial = (cause,state) pairs in which the client had been accepted; distinct by scenario")
 	r.Assume("DISCONNECT racing with another cause is judged by what the broker logged as received")
 	r.Exhaustive()
 	var list []scenario
@@ -454,6 +565,9 @@ func TestCheck(t *testing.T) {
 		h.Parallel(len(list), 16, func(i int) { run(r, list[i]) })
 	}
 	r.Count("scenarios", int64(len(list)))
+	nbp := r.Pick(24, 400)
+	h.Parallel(nbp, 8, func(i int) { backpressured(r, i) })
+	r.Count("backpressured_observer_runs", int64(nbp))
 	r.Sample(map[string]interface{}{"scenario": list[0].String()})
 	r.Sample(map[string]interface{}{"scenario": list[len(list)/2].String()})
 	h.Exit(r.Finish(50))
